@@ -100,7 +100,11 @@ def configs(tier, seed):
             h = int(hashlib.sha256(("%s/%d" % (name, seed)).encode()).hexdigest(), 16)
             faulty = [c for c in allc if c[0] != "{}" or c[1] != "{}"]
             withbad = [c for c in faulty if c[0] != "{}"]
-            sel = [("{}", "{}", int(consts.get("MaxView", "1"))), withbad[h % len(withbad)], faulty[(h // 97) % len(faulty)]]
+            # the shipped all-good configuration, every single faulty node with two views (the
+            # behaviours of the smaller configurations are among theirs), one seed-chosen other
+            nobad = [c for c in faulty if c[0] == "{}"]
+            sel = [("{}", "{}", int(consts.get("MaxView", "1")))] + [c for c in withbad if c[1] == "{}" and c[2] == 2]
+            sel += [nobad[h % len(nobad)], withbad[(h // 97) % len(withbad)]]
         else:
             sel = allc
         for (f, d, mv) in sel:
@@ -163,6 +167,58 @@ def run_one(job):
     return res
 
 
+def load_known():
+    try:
+        j = json.load(open(os.path.join(V, "known_findings.json")))
+    except Exception as e:  # noqa
+        die("cannot read known_findings.json: %s" % e)
+    lst = [v for v in j.values() if isinstance(v, list)][0] if isinstance(j, dict) else j
+    return [k for k in lst if k.get("property") == "C20" and k.get("status") == "known"]
+
+
+def reproduce_known(k):
+    """replays the recorded behaviour of a known finding against the working tree's
+    specification: TLC may only take the step of the spec's own Next relation that leads to
+    the next recorded state.  True iff the invariant violation is reproduced."""
+    d = os.path.join(B, "known_" + k["id"])
+    shutil.rmtree(d, ignore_errors=True)
+    os.makedirs(d)
+    spec = os.path.join(REPO, "formal-models", k["spec"], k["module"])
+    if not os.path.exists(spec):
+        return False
+    shutil.copy(spec, d)
+    for ext in (".tla", ".cfg"):
+        shutil.copy(os.path.join(V, "tla", "known", k["script"] + ext), d)
+    cmd = ["java", "-XX:+UseParallelGC", "-Xmx1g", "-cp", JAR, "tlc2.TLC", "-workers", "1", "-config", k["script"] + ".cfg",
+           "-metadir", os.path.join(d, "meta"), k["script"] + ".tla"]
+    try:
+        r = subprocess.run(cmd, cwd=d, stdout=subprocess.PIPE, stderr=subprocess.STDOUT, text=True, timeout=600)
+    except subprocess.TimeoutExpired:
+        return False
+    m = re.search(r"Invariant (\w+) is violated", r.stdout)
+    shutil.rmtree(d, ignore_errors=True)
+    return bool(m) and m.group(1) == k["invariant"]
+
+
+def is_known(r, known):
+    """a violation found by the search is the known finding iff it is in the same
+    specification, of the same invariant, with a faulty node allowed, and its last state
+    shows the finding's signature: a good node that sent Commit in two different views."""
+    cfg = r["cfg"]
+    for k in known:
+        if cfg["spec"] != k["spec"] or r["violated"] != k["invariant"] or cfg["consts"]["RMFault"] == "{}":
+            continue
+        last = r["tlc_output"].rsplit("\nState ", 1)[-1]
+        bad = set(re.findall(r"\d+", cfg["consts"]["RMFault"]))
+        views = {}
+        for v, rm in re.findall(r'\[type \|-> "Commit", view \|-> (\d+), rm \|-> (\d+)\]', last):
+            if rm not in bad:
+                views.setdefault(rm, set()).add(v)
+        if any(len(vs) > 1 for vs in views.values()):
+            return k
+    return None
+
+
 def replay(path):
     rf = json.load(open(path))
     cfg = rf["config"]
@@ -183,12 +239,19 @@ def main():
     tier = sys.argv[1] if len(sys.argv) > 1 else "quick"
     seed = int(os.environ.get("VERIF_SEED", "1"))
     workers = int(os.environ.get("VERIF_WORKERS", "16"))
-    num = int(os.environ.get("VERIF_TLC_TRACES", 400 if tier == "quick" else 4000))
+    num = int(os.environ.get("VERIF_TLC_TRACES", 1500 if tier == "quick" else 6000))
     depth = 100
     t0 = time.time()
     os.makedirs(B, exist_ok=True)
     os.makedirs(os.path.join(OUT, "replays"), exist_ok=True)
     os.makedirs(os.path.join(OUT, "evidence"), exist_ok=True)
+    known = []
+    for k in load_known():
+        if reproduce_known(k):
+            known.append(k)
+            print("KNOWN-FINDING: property=C20 %s [%s]" % (k["what"], k["id"]))
+        else:
+            print("note: known finding %s no longer reproduces; it suppresses nothing" % k["id"])
     cfgs = configs(tier, seed)
     jobs = [(i, c, (seed * 1000003 + i * 7919) % (2 ** 31), num, depth) for i, c in enumerate(cfgs)]
     with ThreadPoolExecutor(max_workers=max(1, workers // 2)) as ex:
@@ -198,7 +261,8 @@ def main():
         for r in trouble:
             print("TLC trouble in %s %s:\n%s" % (r["cfg"]["spec"], r["cfg"]["consts"], r["trouble"]), file=sys.stderr)
         die("TLC failed for %d configuration(s)" % len(trouble))
-    viol = [r for r in results if r.get("violated")]
+    viol = [r for r in results if r.get("violated") and not is_known(r, known)]
+    known_hits = [r for r in results if r.get("violated") and is_known(r, known)]
     sigs, fsigs = set(), set()
     for r in results:
         sigs.update(r["sigs"])
@@ -224,11 +288,13 @@ def main():
             "configurations": len(results),
             "per_specification": per_spec,
             "invariants_checked": sorted({i for r in results for i in r["cfg"]["inv"]}),
-            "fault_sets": "quick: the shipped all-good configuration plus two seed-chosen fault configurations per specification; thorough: all 13 (RMFault, RMDead) pairs allowed by ASSUME at N=4 x MaxView in {1,2}",
+            "fault_sets": "quick: per specification the shipped all-good configuration, RMFault={i} for every i with MaxView=2, and two seed-chosen other fault configurations; thorough: all 13 (RMFault, RMDead) pairs allowed by ASSUME at N=4 x MaxView in {1,2}",
             "runs_per_hour": int(traces / wall * 3600) if wall > 0 else 0,
             "real_vs_stub": {"real_code": ["the five .tla specifications of formal-models/ from the working tree; constants, constraint and invariants parsed from their .launch files"],
                              "stubs": ["TLC simulation mode chooses the next-state action (seeded)"]},
             "exhaustive": False,
+            "known_findings_reproduced": [k["id"] for k in known],
+            "known_finding_hits_in_search": len(known_hits),
         },
         "assumptions": ["TLC (tla2tools.jar) is trusted", "random walks sample the reachable states; nothing is enumerated"],
         "wall_s": round(wall, 2), "violations": len(viol),
